@@ -753,6 +753,66 @@ impl<F: Future> Future for StampedSend<F> {
     }
 }
 
+/// `cancel()` of a pinned send future (borrowed and shared flavour)
+trait CancelPinned {
+    type V;
+    fn cancel_pinned(self: Pin<&mut Self>) -> Option<Self::V>;
+}
+impl<'a, MT: lock_api::RawMutex, T> CancelPinned for futures_intrusive::channel::ChannelSendFuture<'a, MT, T> {
+    type V = T;
+    fn cancel_pinned(self: Pin<&mut Self>) -> Option<T> {
+        // Safety: cancel() does not move the future
+        unsafe { self.get_unchecked_mut() }.cancel()
+    }
+}
+impl<MT: lock_api::RawMutex, T> CancelPinned for sh::ChannelSendFuture<MT, T> {
+    type V = T;
+    fn cancel_pinned(self: Pin<&mut Self>) -> Option<T> {
+        // Safety: cancel() does not move the future
+        unsafe { self.get_unchecked_mut() }.cancel()
+    }
+}
+
+enum SendEnd<T> {
+    Done(Result<(), futures_intrusive::channel::ChannelSendError<T>>),
+    /// cancel() handed the value back: it was never sent
+    Withdrawn(T),
+    /// cancel() found the value gone: a receiver took it in the meantime, the send took effect
+    TakenMeanwhile,
+}
+
+/// A send that gives up after `left` pending polls by calling `cancel()` (not by dropping the
+/// future): the value comes back, unless a receiver was faster.
+struct CancellingSend<F> {
+    fut: StampedSend<F>,
+    left: u32,
+}
+impl<T, F: Future<Output = Result<(), futures_intrusive::channel::ChannelSendError<T>>> + CancelPinned<V = T>> Future for CancellingSend<F> {
+    type Output = SendEnd<T>;
+    fn poll(self: Pin<&mut Self>, cx: &mut Context<'_>) -> Poll<SendEnd<T>> {
+        // Safety: structural pinning
+        let this = unsafe { self.get_unchecked_mut() };
+        match unsafe { Pin::new_unchecked(&mut this.fut) }.poll(cx) {
+            Poll::Ready(r) => Poll::Ready(SendEnd::Done(r)),
+            Poll::Pending if this.left == 0 => {
+                super::count("cancel_send");
+                let inner = unsafe { Pin::new_unchecked(&mut this.fut.fut) };
+                match inner.cancel_pinned() {
+                    Some(v) => Poll::Ready(SendEnd::Withdrawn(v)),
+                    None => Poll::Ready(SendEnd::TakenMeanwhile),
+                }
+            }
+            Poll::Pending => {
+                this.left -= 1;
+                if draw(2) == 0 {
+                    cx.waker().wake_by_ref();
+                }
+                Poll::Pending
+            }
+        }
+    }
+}
+
 /// stamps the poll of a receive future that yields a message
 struct StampedRecv<F> {
     fut: F,
@@ -915,6 +975,20 @@ fn t_chan(cfg: &Cfg) {
                             }
                         }
                     }
+                } else if draw(100) < p_budget {
+                    // a send with a deadline: cancel() instead of waiting on
+                    match block_on(CancellingSend { fut: StampedSend { fut: chan.send(m), order: order.clone(), msg: id, first: true }, left: draw(3) as u32 }) {
+                        SendEnd::Done(Ok(())) | SendEnd::TakenMeanwhile => {
+                            bound.send_ok(cap);
+                            led.lock().unwrap().sent_ok[id] = true;
+                        }
+                        SendEnd::Done(Err(_)) => {}
+                        SendEnd::Withdrawn(v) => {
+                            if v.id != id {
+                                violation("C08", "cancel-returned-wrong-value", format!("cancel() of the send of message #{} handed back message #{}", id, v.id));
+                            }
+                        }
+                    }
                 } else if block_on(StampedSend { fut: chan.send(m), order: order.clone(), msg: id, first: true }).is_ok() {
                     bound.send_ok(cap);
                     led.lock().unwrap().sent_ok[id] = true;
@@ -1049,6 +1123,26 @@ fn t_chan_shared(cfg: &Cfg) {
             for s in 0..items {
                 let m = Msg::new(&led, p as u32, s as u32);
                 let id = m.id;
+                if draw(100) < p_budget {
+                    // a send with a deadline: cancel() instead of waiting on
+                    match block_on(CancellingSend { fut: StampedSend { fut: tx.send(m), order: order.clone(), msg: id, first: true }, left: draw(3) as u32 }) {
+                        SendEnd::Done(Ok(())) | SendEnd::TakenMeanwhile => {
+                            bound.send_ok(cap);
+                            led.lock().unwrap().sent_ok[id] = true;
+                        }
+                        SendEnd::Done(Err(_)) => {
+                            if !has_closer {
+                                violation("C11", "closed-while-handles-alive", format!("producer {}: send failed although a sender handle and a receiver handle are alive", p))
+                            }
+                        }
+                        SendEnd::Withdrawn(v) => {
+                            if v.id != id {
+                                violation("C08", "cancel-returned-wrong-value", format!("cancel() of the send of message #{} handed back message #{}", id, v.id));
+                            }
+                        }
+                    }
+                    continue;
+                }
                 match block_on(StampedSend { fut: tx.send(m), order: order.clone(), msg: id, first: true }) {
                     Ok(()) => {
                         bound.send_ok(cap);
